@@ -174,6 +174,24 @@ func (g *gen) call(instr ssa.Instruction, c *ssa.CallCommon, pos token.Pos) Val 
 		g.tick()
 		return g.resultVal(sig, func(i int, t types.Type) Val { v := g.freshVal("ret_"+callee.Name(), t); g.notePtr(v); return v })
 	}
+	if g.sweepFrames != "" {
+		if isCursorMutator(callee) && len(args) > 0 {
+			g.declareFun("cursorPrivate", []string{"Int"}, "Bool")
+			g.oblige("call/"+callee.Name()+"/pre", "cursor mutator only inside a private copy", app("cursorPrivate", args[0].T), pos, nil)
+		}
+		if key == "golang.org/x/tools/go/ast/astutil.Apply" && len(c.Args) == 3 {
+			mut := false
+			for _, a := range c.Args[1:] {
+				if mc, ok := unwrapFn(a).(*ssa.MakeClosure); ok && closureMutates(mc.Fn.(*ssa.Function), map[*ssa.Function]bool{}) {
+					mut = true
+				}
+			}
+			if mut && args[0].Sort == "Iface" {
+				g.declareFun("private", []string{"Int"}, "Bool")
+				g.oblige("call/Apply/pre", "mutating callbacks need a private root", app("private", app("i_val", args[0].T)), pos, nil)
+			}
+		}
+	}
 	if ctr := g.e.ext[key]; ctr != nil {
 		g.assumed["ext:"+key] = true
 		_ = recv
@@ -193,6 +211,14 @@ func (g *gen) call(instr ssa.Instruction, c *ssa.CallCommon, pos token.Pos) Val 
 			}
 		} else if r.Sort == "Iface" && len(args) == 1 && args[0].Sort == "Iface" {
 			g.assume(implies(not(eq(app("i_tag", args[0].T), "0")), and(eq(app("i_tag", r.T), app("i_tag", args[0].T)), not(eq(app("i_val", r.T), "0")))))
+		}
+		if strings.Contains(key, "astcopy.") && g.sweepFrames != "" {
+			g.declareFun("private", []string{"Int"}, "Bool")
+			if r.Sort == "Int" {
+				g.assume(app("private", r.T))
+			} else if r.Sort == "Iface" {
+				g.assume(app("private", app("i_val", r.T)))
+			}
 		}
 		if strings.Contains(key, "astcopy.") {
 			// a deep copy: the result is a fresh region (frame reasoning of C05)
